@@ -17,9 +17,12 @@ def Member (T : Truth) (r t : Nat) : Prop := ∃ ls d, T.images r = some ls ∧ 
 
 /-! ## Lookup -/
 
-/-- After ANY history in which the registry answered, a lookup (diff / blob of (ref, TOC digest))
-succeeds exactly when the image contains a layer with that TOC digest — whatever was used,
-released, released to zero and looked up again before. -/
+/-- After ANY history in which no layer resolution failed, a lookup (diff / blob of (ref, TOC
+digest)) with a healthy registry succeeds exactly when the image contains a layer with that TOC
+digest — whatever was used, released, released to zero and looked up again before.  The history
+may contain lookups whose manifest could not be fetched: registry errors on the manifest and
+lookups ABANDONED BY THEIR CLIENT (cancelled context; `Op.Healthy` leaves `o.manifest` free, and
+the layers are resolved on `context.Background()`): neither leaves a trace. -/
 theorem lookup_succeeds_iff_member (T : Truth) (hfun : T.Functional) (h : List Op)
     (hh : ∀ op, op ∈ h → op.Healthy) (o : Oracle) (ho : o.Healthy) (r t : Nat) :
     (lookup T o (run T init h) r t).2.isOk = true ↔ Member T r t := by
@@ -380,6 +383,16 @@ theorem unused_sibling_state_after_last_release :
     lay (run T0 init [.lookup hy 0 20, .use 0 20, .release 0 20]) 0 21 = some ⟨1, 11, 21⟩ ∧
     1 ∉ (run T0 init [.lookup hy 0 20, .use 0 20, .release 0 20]).done ∧
     mem (run T0 init [.lookup hy 0 20, .use 0 20, .release 0 20]) 0 11 = none := by decide
+
+/-- client gone before the manifest was fetched (its context is cancelled; the registry is fine). -/
+def gone : Oracle := ⟨fun _ => false, fun _ _ => true⟩
+
+/-- an abandoned lookup is a healthy operation in the sense of `lookup_succeeds_iff_member`, it
+fails, memoises nothing, and the next lookup succeeds. -/
+example : (Op.lookup gone 0 20).Healthy ∧ (lookup T0 gone init 0 20).2 = .err ∧
+    mem (run T0 init [.lookup gone 0 20]) 0 10 = none ∧
+    (lookup T0 hy (run T0 init [.lookup gone 0 20]) 0 20).2 = .layer ⟨0, 10, 20⟩ :=
+  ⟨fun _ _ => rfl, by decide, by decide, by decide⟩
 
 /-! ## Non-vacuity: the hypotheses are satisfiable and the conclusions are not trivial -/
 
